@@ -3205,3 +3205,291 @@ def _vec_drain(eng, t, a, fr, dt):
         raise Panic('drain range out of bounds')
     eng.store(r, VecV(v.items[:start] + v.items[end:]))
     return Iter('list', v.items[start:end], 0)
+
+
+# --------------------------------------------------------------------------- further adaptors / terminals a
+# behaviour-preserving rewrite may use (each evaluated eagerly where the closure is pure w.r.t. iteration order:
+# the items are produced in order, closures are called in order)
+
+def _drain_iter(eng, it):
+    out = []
+    while True:
+        it, item = iter_next(eng, it)
+        if item is None:
+            return out
+        out.append(item)
+
+
+@reg('Iterator::flat_map')
+def _it_flat_map(eng, t, a, fr, dt):
+    ts = fr.tsubst if fr else None
+    out = []
+    for item in _drain_iter(eng, to_iter(eng, a[0])):
+        out.extend(_drain_iter(eng, to_iter(eng, eng.call_closure(a[1], [item], ts))))
+    return Iter('list', tuple(out), 0)
+
+
+@reg('Iterator::flatten')
+def _it_flatten(eng, t, a, fr, dt):
+    out = []
+    for item in _drain_iter(eng, to_iter(eng, a[0])):
+        out.extend(_drain_iter(eng, to_iter(eng, item)))
+    return Iter('list', tuple(out), 0)
+
+
+@reg('Iterator::filter_map')
+def _it_filter_map(eng, t, a, fr, dt):
+    ts = fr.tsubst if fr else None
+    out = []
+    for item in _drain_iter(eng, to_iter(eng, a[0])):
+        r = eng.call_closure(a[1], [item], ts)
+        if _disc_is(eng, r, 1):
+            out.append(r.pay[1][0])
+    return Iter('list', tuple(out), 0)
+
+
+@reg('Iterator::find_map')
+def _it_find_map(eng, t, a, fr, dt):
+    ts = fr.tsubst if fr else None
+    r0 = a[0]
+    it = to_iter(eng, eng.load(r0) if type(r0) is Ref else r0)
+    res = NONE
+    while True:
+        it, item = iter_next(eng, it)
+        if item is None:
+            break
+        r = eng.call_closure(a[1], [item], ts)
+        if _disc_is(eng, r, 1):
+            res = r
+            break
+    if type(r0) is Ref:
+        eng.store(r0, it)
+    return res
+
+
+@reg('Iterator::inspect')
+def _it_inspect(eng, t, a, fr, dt):
+    ts = fr.tsubst if fr else None
+    items = _drain_iter(eng, to_iter(eng, a[0]))
+    for item in items:
+        eng.call_closure(a[1], [Ref(Cell(item), (0,))], ts)
+    return Iter('list', tuple(items), 0)
+
+
+@reg('Iterator::map_while')
+def _it_map_while(eng, t, a, fr, dt):
+    ts = fr.tsubst if fr else None
+    out = []
+    it = to_iter(eng, a[0])
+    while True:
+        it, item = iter_next(eng, it)
+        if item is None:
+            break
+        r = eng.call_closure(a[1], [item], ts)
+        if not _disc_is(eng, r, 1):
+            break
+        out.append(r.pay[1][0])
+    return Iter('list', tuple(out), 0)
+
+
+@reg('Iterator::min_by_key', 'Iterator::max_by_key')
+def _it_by_key(eng, t, a, fr, dt):
+    ts = fr.tsubst if fr else None
+    want_max = 'max' in t.key
+    best = bestk = None
+    for item in _drain_iter(eng, to_iter(eng, a[0])):
+        k = deref_all(eng.call_closure(a[1], [Ref(Cell(item), (0,))], ts))
+        if type(k) is not Int:
+            raise Unmodelled('min/max_by_key with a non-integer key')
+        if best is None:
+            best, bestk = item, k
+            continue
+        # max_by_key keeps the last maximum, min_by_key the first minimum
+        better = _cmp('Ge' if want_max else 'Lt', k.ty, k.v, bestk.v)
+        if eng.ctx.branch(better):
+            best, bestk = item, k
+    return opt(best)
+
+
+@reg('Iterator::reduce')
+def _it_reduce(eng, t, a, fr, dt):
+    ts = fr.tsubst if fr else None
+    acc = None
+    for item in _drain_iter(eng, to_iter(eng, a[0])):
+        acc = item if acc is None else eng.call_closure(a[1], [acc, item], ts)
+    return opt(acc)
+
+
+@reg('Iterator::partition')
+def _it_partition(eng, t, a, fr, dt):
+    ts = fr.tsubst if fr else None
+    yes, no = [], []
+    for item in _drain_iter(eng, to_iter(eng, a[0])):
+        (yes if eng.ctx.branch(eng.call_closure(a[1], [Ref(Cell(item), (0,))], ts)) else no).append(deref_all(item))
+    return Agg('tuple', (VecV(tuple(yes)), VecV(tuple(no))))
+
+
+@reg('Iterator::unzip')
+def _it_unzip(eng, t, a, fr, dt):
+    xs, ys = [], []
+    for item in _drain_iter(eng, to_iter(eng, a[0])):
+        p = deref_all(item)
+        xs.append(p.f[0])
+        ys.append(p.f[1])
+    return Agg('tuple', (VecV(tuple(xs)), VecV(tuple(ys))))
+
+
+@reg('Iterator::try_for_each')
+def _it_try_for_each(eng, t, a, fr, dt):
+    raise Unmodelled('Iterator::try_for_each')
+
+
+@reg('bool::then_some')
+def _bool_then_some(eng, t, a, fr, dt):
+    return some(a[1]) if eng.ctx.branch(deref_all(a[0])) else NONE
+
+
+@reg('bool::then')
+def _bool_then(eng, t, a, fr, dt):
+    if eng.ctx.branch(deref_all(a[0])):
+        return some(eng.call_closure(a[1], [], fr.tsubst if fr else None))
+    return NONE
+
+
+@reg('Option::zip')
+def _opt_zip(eng, t, a, fr, dt):
+    if _disc_is(eng, a[0], 1) and _disc_is(eng, a[1], 1):
+        return some(Agg('tuple', (a[0].pay[1][0], a[1].pay[1][0])))
+    return NONE
+
+
+@reg('Option::flatten')
+def _opt_flatten(eng, t, a, fr, dt):
+    if _disc_is(eng, a[0], 1):
+        return a[0].pay[1][0]
+    return NONE
+
+
+@reg('Option::unzip')
+def _opt_unzip(eng, t, a, fr, dt):
+    if _disc_is(eng, a[0], 1):
+        p = deref_all(a[0].pay[1][0])
+        return Agg('tuple', (some(p.f[0]), some(p.f[1])))
+    return Agg('tuple', (NONE, NONE))
+
+
+@reg('TryFrom::try_from', 'TryInto::try_into')
+def _try_from(eng, t, a, fr, dt):
+    # integer -> integer: Ok when the value fits the target type
+    v = deref_all(a[0])
+    tgt = type_base(t.self_ty or '')
+    if t.key.endswith('try_into'):
+        mi = re.search(r'TryInto<\s*(\w+)\s*>', t.raw or '')
+        tgt = mi.group(1) if mi else None
+    if type(v) is not Int or tgt not in BITS or v.ty not in BITS or v.ty in SIGNED or tgt in SIGNED:
+        raise Unmodelled('TryFrom %r' % (t.raw,))
+    tb = BITS[tgt]
+    if BITS[v.ty] <= tb:
+        return ok(int_cast(v, tgt))
+    fits = _cmp('Le', v.ty, v.v, (1 << tb) - 1)
+    if eng.ctx.branch(fits):
+        return ok(int_cast(v, tgt))
+    return err(Opaque('TryFromIntError', ()))
+
+
+@reg('Result::map_err')
+def _res_map_err(eng, t, a, fr, dt):
+    e = a[0]
+    if _disc_is(eng, e, 0):
+        return e
+    return err(eng.call_closure(a[1], [e.pay[1][0]], fr.tsubst if fr else None))
+
+
+@reg('Result::and_then')
+def _res_and_then(eng, t, a, fr, dt):
+    e = a[0]
+    if _disc_is(eng, e, 0):
+        return eng.call_closure(a[1], [e.pay[0][0]], fr.tsubst if fr else None)
+    return e
+
+
+@reg('Result::err')
+def _res_err(eng, t, a, fr, dt):
+    e = a[0]
+    if _disc_is(eng, e, 0):
+        return NONE
+    return some(e.pay[1][0])
+
+
+@reg('Result::unwrap_or_default')
+def _res_unwrap_or_default(eng, t, a, fr, dt):
+    e = a[0]
+    if _disc_is(eng, e, 0):
+        return e.pay[0][0]
+    g = t.self_ty or ''
+    inner = top_level_split(g[g.index('<') + 1:g.rindex('>')], ', ')[0].strip() if '<' in g else ''
+    ib = type_base(inner) if inner else ''
+    if ib in BITS:
+        return Int(ib, 0)
+    if ib == 'String':
+        return Str(())
+    raise Unmodelled('Result::unwrap_or_default for ' + g)
+
+
+@reg('char::to_ascii_uppercase', 'char::to_ascii_lowercase')
+def _char_ascii_case(eng, t, a, fr, dt):
+    c = deref_all(a[0])
+    up = t.key.endswith('uppercase')
+    lo, hi, d = (97, 122, -32) if up else (65, 90, 32)
+    if c.concrete:
+        return Int('char', c.v + d if lo <= c.v <= hi else c.v)
+    return Int('char', z3.If(z3.And(z3.UGE(c.v, lo), z3.ULE(c.v, hi)), c.v + d, c.v))
+
+
+@reg('char::is_digit')
+def _char_is_digit(eng, t, a, fr, dt):
+    c = deref_all(a[0])
+    radix = deref_all(a[1])
+    if not radix.concrete or radix.v != 10:
+        raise Unmodelled('char::is_digit with radix %r' % (radix,))
+    return bool_and(_cmp('Ge', 'u32', c.v, 48), _cmp('Le', 'u32', c.v, 57))
+
+
+@reg('u32::checked_div', 'usize::checked_div', 'u64::checked_div')
+def _checked_div(eng, t, a, fr, dt):
+    x, y = deref_all(a[0]), deref_all(a[1])
+    if eng.ctx.branch(int_eq(y, 0)):
+        return NONE
+    return some(binop('Div', x, y))
+
+
+def _mkint(ty, e):
+    e = z3.simplify(e)
+    return Int(ty, e.as_long()) if z3.is_bv_value(e) else Int(ty, e)
+
+
+@reg('u8::saturating_add', 'u16::saturating_add', 'u16::saturating_sub', 'u8::checked_add', 'u8::checked_sub', 'u16::checked_add',
+     'u16::checked_sub', 'u64::checked_add', 'u64::checked_mul')
+def _small_int_arith(eng, t, a, fr, dt):
+    ty, m = t.key.split('::')
+    x, y = deref_all(a[0]), deref_all(a[1])
+    bits = BITS[ty]
+    mx = (1 << bits) - 1
+    X = z3.ZeroExt(bits, bv(x))
+    Y = z3.ZeroExt(bits, bv(y))
+    wide = {'saturating_add': X + Y, 'checked_add': X + Y, 'saturating_sub': X - Y, 'checked_sub': X - Y,
+            'checked_mul': X * Y}[m]
+    if m.endswith('sub'):
+        under = z3.simplify(z3.ULT(bv(x), bv(y)))
+        if m.startswith('saturating'):
+            return _mkint(ty, z3.If(under, z3.BitVecVal(0, bits), bv(x) - bv(y)))
+        if eng.ctx.branch(under):
+            return NONE
+        return some(_mkint(ty, bv(x) - bv(y)))
+    over = z3.simplify(z3.UGT(wide, mx))
+    res = z3.simplify(z3.Extract(bits - 1, 0, wide))
+    if m.startswith('saturating'):
+        return _mkint(ty, z3.If(over, z3.BitVecVal(mx, bits), res))
+    if eng.ctx.branch(over):
+        return NONE
+    return some(_mkint(ty, res))
